@@ -53,7 +53,7 @@ def check(run):
     found_before = len(run.violations) + len(run.known_hit)
     progs, metas = [], []
     nontrivial = 0
-    for i in range(40000 if thorough else 6000):
+    for i in range(150000 if thorough else 6000):
         fam = rng.choice(["x64", "x86", "a64", "rv"])
         front = rng.choice(["vec", "asm", "asm"])
         g = asmgen.Gen(rng, front, fam, max_ops=60 if thorough else 35)
@@ -63,7 +63,7 @@ def check(run):
         names = [l.split()[1] for l in lines if l.startswith("ll ")]
         if len(names) != len(set(names)) and any(l.split()[0] in ("rf", "rb") for l in lines) or ("c" in lines[:-2] and any(l[:2] in ("rb", "rg") for l in lines)):
             nontrivial += 1
-    for i in range(8000 if thorough else 1500):
+    for i in range(30000 if thorough else 1500):
         lines, meta = c10.session_program(rng, rng.choice(["x64", "x86", "a64", "rv"]), True, False)
         progs.append(lines)
         metas.append(None)
